@@ -224,6 +224,26 @@ example : ¬ atomRevCompat.Coherent (fun n => if n == "python_version" then some
 /-- and it is not merged: `"3.8" ~= python_version and python_version > "3.8"` stays a conjunction -/
 example : mergeSingle atomRevCompat atomPvGt true = none := by decide
 
+/-- `python_full_version >= "3.8,<3.9"`: the operand is not a version, so the atom is evaluated by the PEP 508
+    string fallback, while its specifier view splices the operand into a specifier expression (`>=3.8,<3.9`).
+    Before the `fix:` for D35 it was merged through that view (`... and python_full_version >= "3.8.5"` became
+    `python_full_version ~= "3.8.5"`).  Now `Atom.exactView` is false for such operands: a Good, opaque atom. -/
+def atomComma : Atom :=
+  ⟨"python_full_version", .ge, "3.8,<3.9", false,
+   .ver (.range { min := some { release := [3, 8] }, max := some { release := [3, 9] }, incMin := true })⟩
+
+theorem atomComma_good : GoodAtom env0 atomComma := by
+  refine ⟨by unfold Atom.WF; decide, ?_⟩
+  have h1 : atomComma.name ≠ "extra" := by decide
+  have h2 : setNames.contains atomComma.name = false := by decide
+  have h3 : versionLikeNames.contains atomComma.name = true := by decide
+  simp only [h1, if_false, h2, Bool.false_eq_true, h3, if_true]
+  exact Or.inl (by decide)
+
+example : mergeSingle atomComma ⟨"python_full_version", .ge, "3.8.5", false,
+    .ver (.range { min := some { release := [3, 8, 5] }, incMin := true,
+                   text := some ⟨.ge, { release := [3, 8, 5] }, false⟩ })⟩ true = none := by decide
+
 /-- `implementation_version == "3.8"`: `_evaluate` compares it as a version (MARKERS_REQUIRING_VERSION), its
     specifier view is a string comparison (it is not in `_VERSION_LIKE_MARKER_NAME`).  Before the `fix:` for D24
     two such atoms were merged through the string view (`== "3.8" or == "3.9"` became a group that is false on
